@@ -64,6 +64,10 @@ def lex_rule(ctx, g):
             return v in [k.value for k in L.keys]
         if pm.match('self.keywords', L) is not None:
             return v in set(g.keywords)
+        if pm.match('self.tokens', L) is not None:
+            return v in set(g.tokens)
+        if pm.match('self.reserved', L) is not None and g.reserved:
+            return v in set(g.reserved)
         return None
 
     def set_type(e, s, tr):
@@ -77,13 +81,19 @@ def lex_rule(ctx, g):
                        [('%s.type = _V' % tp, set_type), ('%s.endlexpos = _V' % tp, lambda e, s, tr: True)])
     kw0 = sorted(g.keywords)[0]
     ok = True
-    for lexeme in (kw0.upper(), kw0.lower(), kw0.capitalize(), 'not_a_keyword_x'):
+    # words that name another token (NUMBER, STRING, TIMES ...) are ordinary identifiers
+    others = sorted(t_ for t_ in set(g.tokens) - set(g.keywords) if t_.isalpha())[:3]
+    wrong = None
+    for lexeme in [kw0.upper(), kw0.lower(), kw0.capitalize(), 'not_a_keyword_x'] + [o.lower() for o in others] + others:
         out, tr = ti.run({'lexeme': lexeme})
         types = [t[1] for t in tr if t[0] == 'type']
         want = [lexeme.upper()] if lexeme.upper() in set(g.keywords) else []
+        if types != want and wrong is None:
+            wrong = (lexeme, types)
         ok = ok and types == want
     r.check(ok, 't_ID looks the upper-cased lexeme up in the keyword table and uses it as token type', fn, construct=Q, key='upper-lookup',
-            msg='t_ID does not decide keyword-ness on `%s.value.upper()`' % tp)
+            msg='t_ID does not decide keyword-ness on `%s.value.upper()` against the keyword table: the word %r gets the token type %s' % (
+                tp, wrong[0] if wrong else '?', wrong[1] if wrong else '?'))
     r.check(all(k == k.upper() for k in g.keywords), 'the keyword table is upper case', g.cls, construct=CLS + '.keywords', key='table-case',
             msg='keyword table contains non upper-case entries: %s' % [k for k in g.keywords if k != k.upper()])
     # t_ID must not change t.value (identifiers keep their spelling)
